@@ -1,7 +1,8 @@
 """C02 — Heat-bath diagonal update yields the same equilibrium as the default update (partial: see design_notes/C02.md)."""
+from checks import kern
 from checks import pure_fns
 LEAN_TARGETS = ["QmcProps.C02", "drv_c02"]
-BINS = ["c02"]
+BINS = ["c02", "kern"]
 
 THEOREMS = [
     "heatbath_ratio_real_table",
@@ -39,6 +40,7 @@ def main(ck):
         ck.correspond("table-invariant-under-swaps", "drv_c02", ck.harness("c02", ["pairs"]))
         ck.correspond("sampler-sweeps", "drv_c02", ck.harness("c02", ["sweeps"]))
         ck.correspond("sampler-probabilities", "drv_c02", ck.harness("c02", ["prob"]))
+        kern.run(ck, "heatbath")   # exact one-step kernels of the real code on tiny systems: pi K = pi
     ck.assumptions.append("partial: ergodicity/convergence of the chain and the SSE representation theorem (weight -> thermal state) are mathematics outside the model; "
                           "Lean carries the per-slot ratio / detailed balance for every weight table and the table-validity invariant")
     return ck.finish(RULE)
